@@ -140,6 +140,7 @@ type funcVerifier struct {
 	inLoopHavoc bool
 	ghostTypes  map[string]types.Type
 	lockSnaps   []*State
+	localKeep   map[string]bool // sort names of function-local struct types that never escape (see havocAll)
 	unlockSnaps []*State       // states right before each release of an owned mutex (program order)
 	exitAssume  []int          // number of assumptions recorded when each exit was taken
 	callOrd     map[string]int // external callee full name -> calls seen so far (call-site contracts)
@@ -219,6 +220,7 @@ func (p *Program) VerifyFunc(fi *FuncInfo, opt Options) (res *FuncResult) {
 		boxed: map[*types.Var]bool{}, volatile: map[*types.Var]bool{}, volField: map[string]bool{},
 		inputDescr: map[string]string{}, candLog: map[string][]string{}, volMem: map[string]bool{}, frameInst: map[string]int{}, ghostTypes: map[string]types.Type{}}
 	fv.so = newSorts(fv.c)
+	fv.localKeep = fv.computeLocalTypes()
 	for k, so := range opt.HeapKeys {
 		fv.heapSorts[k] = so
 	}
